@@ -29,6 +29,7 @@ type (
 	EQuant  struct{ Forall bool; Vars []QVar; Body Expr; Pats [][]Expr }
 	ELet    struct{ Name string; X, Body Expr }
 	EStore  struct{ M, K, V Expr }          // m[k := v]
+	ELam    struct{ Var QVar; Body Expr }   // mapof i T :: body   (the total map i -> body)
 )
 
 type QVar struct {
@@ -92,6 +93,9 @@ func (e *EQuant) String() string {
 	return "(" + q + " " + strings.Join(vs, ", ") + " :: " + e.Body.String() + ")"
 }
 func (e *ELet) String() string   { return "(let " + e.Name + " = " + e.X.String() + " in " + e.Body.String() + ")" }
+func (e *ELam) String() string {
+	return "(mapof " + e.Var.Name + " " + e.Var.Type.String() + " :: " + e.Body.String() + ")"
+}
 func (e *EStore) String() string { return e.M.String() + "[" + e.K.String() + " := " + e.V.String() + "]" }
 
 // ---------- lexer ----------
@@ -267,6 +271,15 @@ func (p *parser) expr() Expr {
 		}
 		body := p.expr()
 		return &EQuant{fa, vars, body, pats}
+	}
+	if p.isID("mapof") {
+		// map comprehension: mapof i T :: body  -- the total map that sends every i to body
+		p.i++
+		n := p.ident()
+		t := p.typeExpr()
+		p.expectOp("::")
+		body := p.expr()
+		return &ELam{QVar{n, t}, body}
 	}
 	if p.isID("let") {
 		p.i++
@@ -535,6 +548,7 @@ type LoopSpec struct {
 	Decreases  *Clause
 	Modifies   []string // optional explicit heap frame for the loop
 	Asserts    []*Clause   // `loop K assert E`: proof hint proved at the end of every iteration (on each back edge, before the ghost updates); available to the invariant-preservation obligations
+	Inits      []*GhostUpd // `loop K init target := value`: ghost updates executed once, each time the loop is entered (before the invariant is first checked)
 	Sets       []*GhostUpd // `loop K set target := value`: ghost updates executed at the end of every iteration (on each back edge, before the invariant is re-established)
 }
 
@@ -568,12 +582,14 @@ type FuncContract struct {
 	Ghost     []*GhostUpd
 	LockMode  string
 	Placeholder bool // created by an `extend` block before the main block was seen
+	Private   bool      // declared in a file marked `private`: visible only to units of the declaring package (others see no contract: they inline the body)
 	Monitor   []*Clause // `monitor E`: monitor invariant / rely condition at every sync.Cond.Wait of this unit
 }
 
 type GhostUpd struct {
 	Target Expr
 	Value  Expr
+	Ret    int // `set@K target := value` (with `splitreturns`): executed only at the K-th return statement (0: at every return)
 }
 
 type SpecFn struct {
@@ -633,10 +649,18 @@ type ContractSet struct {
 	Sorts    map[string]bool
 	Files    []string
 	Dups     []string
+	// PkgModels: package name -> model namespaces its units use (`usemodel NAME` in any contract file of the package).
+	// An `extern@NAME key` block is stored under "NAME::key" and is visible only to the units of those packages; it takes
+	// precedence there over the contract stored under the plain key (a trusted model of another package's functions can
+	// coexist with the verified contracts of that package).
+	PkgModels map[string][]string
+	// AlsoLoad: contract file -> further package patterns (relative to the repository root) that a check of the units of
+	// this file must load too (`alsoload ./util/list`: an extern declared there mentions that package's types)
+	AlsoLoad map[string][]string
 }
 
 func NewContractSet() *ContractSet {
-	return &ContractSet{Funcs: map[string]*FuncContract{}, SpecFns: map[string]*SpecFn{}, Types: map[string]*TypeContract{}, RawSMT: map[string][]string{}, Sorts: map[string]bool{}}
+	return &ContractSet{Funcs: map[string]*FuncContract{}, SpecFns: map[string]*SpecFn{}, Types: map[string]*TypeContract{}, RawSMT: map[string][]string{}, Sorts: map[string]bool{}, PkgModels: map[string][]string{}, AlsoLoad: map[string][]string{}}
 }
 
 // LoadContracts reads every zz_*_verif.go file under root.
@@ -717,6 +741,7 @@ func (cs *ContractSet) loadFile(path string) error {
 	var curF *FuncContract
 	var curT *TypeContract
 	var curA *AxiomDecl
+	filePrivate := false
 	mkClause := func(kind, text string, no int) (*Clause, error) {
 		e, err := ParseExpr(text)
 		if err != nil {
@@ -726,11 +751,29 @@ func (cs *ContractSet) loadFile(path string) error {
 	}
 	for _, l := range ls {
 		word, rest := splitWord(l.text)
+		model := ""
+		if strings.HasPrefix(word, "extern@") {
+			model, word = strings.TrimPrefix(word, "extern@")+"::", "extern"
+		}
 		switch word {
+		case "private":
+			// file-level: the func contracts declared below in this file are not used at call sites in units of other
+			// packages (those keep seeing the function as they did before the contracts existed: through their own
+			// model namespace, or by inlining its body)
+			filePrivate = true
+		case "alsoload":
+			cs.AlsoLoad[path] = append(cs.AlsoLoad[path], strings.Fields(rest)...)
+		case "usemodel":
+			for _, m := range strings.Fields(strings.ReplaceAll(rest, ",", " ")) {
+				cs.PkgModels[pkg] = append(cs.PkgModels[pkg], m)
+			}
 		case "extend":
 			// extend func Name — adds (view-tagged) clauses to a contract declared in another block/file
 			curT, curA = nil, nil
 			kw, r2 := splitWord(rest)
+			if strings.HasPrefix(kw, "extern@") {
+				model, kw = strings.TrimPrefix(kw, "extern@")+"::", "extern"
+			}
 			if kw != "func" && kw != "extern" {
 				return fmt.Errorf("%s:%d: expected 'extend func <name>' or 'extend extern <key>'", path, l.no)
 			}
@@ -740,13 +783,13 @@ func (cs *ContractSet) loadFile(path string) error {
 			if kw == "extern" {
 				// extend extern pkg.Type.Method — adds (view-tagged) clauses to a contract declared elsewhere under that absolute key
 				// (an extern of another file, or a func contract of another package)
-				key = nm
+				key = model + nm
 				// optional parameter/result names, `extend extern pkg.T.M(recv, a) (r)`: used only while the contract has none
 				// of its own (an interface method whose extern block is elsewhere or absent; a function with a body takes
 				// the names from its declaration)
 				if op := strings.Index(r2, "("); op >= 0 {
 					if cl := strings.Index(r2, ")"); cl > op {
-						key = strings.TrimSpace(r2[:op])
+						key = model + strings.TrimSpace(r2[:op])
 						xparams = splitList(r2[op+1 : cl])
 						if restr := strings.TrimSpace(r2[cl+1:]); strings.HasPrefix(restr, "(") {
 							xresults = splitList(strings.Trim(restr, "()"))
@@ -769,7 +812,7 @@ func (cs *ContractSet) loadFile(path string) error {
 		case "func", "extern", "lemmafn":
 			curT, curA = nil, nil
 			name, after := splitWord(rest)
-			fc := &FuncContract{Pkg: pkg, Loops: map[int]*LoopSpec{}, Opts: map[string]string{}, File: path, Line: l.no}
+			fc := &FuncContract{Pkg: pkg, Loops: map[int]*LoopSpec{}, Opts: map[string]string{}, File: path, Line: l.no, Private: filePrivate && word == "func"}
 			if word == "extern" {
 				fc.Extern = true
 				// extern pkg.Recv.Name(a, b) (r0, r1)
@@ -785,7 +828,7 @@ func (cs *ContractSet) loadFile(path string) error {
 				if strings.HasPrefix(restr, "(") {
 					fc.Results = splitList(strings.Trim(restr, "()"))
 				}
-				fc.Key = name
+				fc.Key = model + name
 			} else {
 				_ = after
 				fc.Key = pkg + "." + name
@@ -969,7 +1012,19 @@ func parseFuncClause(f *FuncContract, word, rest string, no int, mk func(kind, t
 	}
 	switch word {
 	case "prop":
-		f.Props = strings.Fields(rest)
+		// accumulate: an `extend` block in another file may add a property tag to a unit (whichever file is read first)
+		for _, pr := range strings.Fields(rest) {
+			if !hasProp(f.Props, pr) {
+				f.Props = append(f.Props, pr)
+			}
+		}
+	case "uses":
+		// accumulate for the same reason
+		for _, u := range strings.Fields(rest) {
+			if !hasProp(strings.Fields(f.Opts["uses"]), u) {
+				f.Opts["uses"] = strings.TrimSpace(f.Opts["uses"] + " " + u)
+			}
+		}
 	case "arith":
 		f.ModeSet = true
 		if rest == "bv" {
@@ -1060,7 +1115,7 @@ func parseFuncClause(f *FuncContract, word, rest string, no int, mk func(kind, t
 				return err
 			}
 			ls.Asserts = append(ls.Asserts, c)
-		case "set":
+		case "set", "init":
 			k := strings.Index(r3, ":=")
 			if k < 0 {
 				return fmt.Errorf("loop ghost update needs :=")
@@ -1073,7 +1128,11 @@ func parseFuncClause(f *FuncContract, word, rest string, no int, mk func(kind, t
 			if err != nil {
 				return err
 			}
-			ls.Sets = append(ls.Sets, &GhostUpd{t, v})
+			if kind == "init" {
+				ls.Inits = append(ls.Inits, &GhostUpd{Target: t, Value: v})
+			} else {
+				ls.Sets = append(ls.Sets, &GhostUpd{Target: t, Value: v})
+			}
 		default:
 			return fmt.Errorf("unknown loop clause %q", kind)
 		}
@@ -1092,7 +1151,15 @@ func parseFuncClause(f *FuncContract, word, rest string, no int, mk func(kind, t
 		if err != nil {
 			return err
 		}
-		f.Ghost = append(f.Ghost, &GhostUpd{t, v})
+		gu := &GhostUpd{Target: t, Value: v}
+		if view != "" {
+			if n, e := strconv.Atoi(view); e == nil {
+				gu.Ret = n
+			} else {
+				return fmt.Errorf("set@K: K must be the ordinal of a return statement")
+			}
+		}
+		f.Ghost = append(f.Ghost, gu)
 	case "monitor":
 		// monitor E — the monitor invariant of the condition variable's lock: proved immediately before every
 		// sync.Cond.Wait executed by this unit (Wait releases the lock, so other goroutines must find E), and assumed
